@@ -8,3 +8,4 @@ from . import storage  # noqa: F401
 from . import entry  # noqa: F401
 from . import clone  # noqa: F401
 from . import listeners  # noqa: F401
+from . import binding  # noqa: F401
